@@ -473,12 +473,13 @@ DELTA_LENS = (1, 2, 63, 64, 65)
 
 class PackedDeltas(Unit):
     name = "packed-deltas"
-    rule = "delta vectors: all vectors of length <=3 (quick) / <=4 (thorough) over {0,+-1,-128,127,128,-129,32767,-32768,32768,-32769,70000}; vectors built as <=3 runs, run=(kind in zero/byte/word/long with 3 values each, length in {1,2,63,64,65}); both optimizeSize settings: decompileDeltas_(n, compileDeltaValues_(d)) == d with all bytes consumed; distinct = each vector"
+    rule = "delta vectors: all vectors of length <=3 (quick) / <=4 (thorough) over {0,+-1,-128,127,128,-129,32767,-32768,32768,-32769,70000}; vectors built as <=3 runs, run=(kind in zero/byte/word/long with 3 values each, length in {1,2,63,64,65}); both optimizeSize settings: decompileDeltas_(n, compileDeltaValues_(d)) == d with all bytes consumed; the empty vector; vectors of length <= 3 also as whole tuples of coordinate width 1 (cvar) and 2 (gvar) with an untouched entry, through compileDeltas; distinct = each vector"
     chunk = 400
-    required_witnesses = ("zero run", "byte run", "word run", "long run", "run of 64")
+    required_witnesses = ("zero run", "byte run", "word run", "long run", "run of 64", "tuple of width 1", "tuple of width 2")
 
     def cases(self, tier, seed):
         maxlen = 3 if tier == "quick" else 4
+        yield ["vec", []]
         for n in range(1, maxlen + 1):
             for vec in itertools.product(DELTA_ATOMS, repeat=n):
                 yield ["vec", list(vec)]
@@ -502,6 +503,26 @@ class PackedDeltas(Unit):
                 # alternate the chosen value with the kind's first value so runs are not constant
                 d.extend(vs[vi] if i % 2 == 0 else vs[0] for i in range(ln))
         rec.nontrivial()
+        if case[0] == "vec" and len(d) <= 3:
+            # whole tuples: one value per entry (cvar) and two (gvar), with an untouched (None) entry in front
+            for width in (1, 2):
+                for opt in (True, False):
+                    coords = [None] + ([v for v in d] if width == 1 else [(v, -v if abs(v) < 32768 else v) for v in d])
+                    tv = TupleVariation({"wght": (0.0, 1.0, 1.0)}, coords)
+                    try:
+                        data = bytes(tv.compileDeltas(optimizeSize=opt))
+                    except Exception as e:
+                        rec.violation("deltas:compileDeltas:%s:width%d" % (type(e).__name__, width), "optimizeSize=%s coordinates %r: %r" % (opt, coords, e))
+                        continue
+                    rec.witness("tuple of width %d" % width)
+                    want = [c for c in coords if c is not None]
+                    gx, pos = TupleVariation.decompileDeltas_(len(want), data, 0)
+                    got = list(gx)
+                    if width == 2:
+                        gy, pos = TupleVariation.decompileDeltas_(len(want), data, pos)
+                        got = list(zip(gx, gy))
+                    if got != want or pos != len(data):
+                        rec.violation("deltas:compileDeltas:roundtrip:width%d" % width, "optimizeSize=%s coordinates %r read back as %r (%d of %d bytes)" % (opt, coords, got, pos, len(data)))
         for opt in (True, False):
             data = bytes(TupleVariation.compileDeltaValues_(d, optimizeSize=opt))
             got, pos = TupleVariation.decompileDeltas_(len(d), data + b"\x55", 0)
